@@ -4,8 +4,8 @@ _A = ["--watchdog", "90"]
 PROP = dict(
     harnesses={"c01_loop_tasks": dict(sources=["harness/c01_loop_tasks.cpp"])},
     legs=[
-        dict(name="tsan", harness="c01_loop_tasks", flavour="tsan", mode="mix", quick=400, thorough=6000, concurrent=True, args=_A, case_timeout=240),
-        dict(name="plain", harness="c01_loop_tasks", flavour="plain", mode="mix", quick=2500, thorough=100000, seed_offset=15485863, concurrent=True, args=_A, case_timeout=240),
+        dict(name="tsan", harness="c01_loop_tasks", flavour="tsan", mode="mix", quick=1000, thorough=12000, concurrent=True, args=_A, case_timeout=240),
+        dict(name="plain", harness="c01_loop_tasks", flavour="plain", mode="mix", quick=8000, thorough=200000, seed_offset=15485863, concurrent=True, args=_A, case_timeout=240),
     ],
     rule=("each case = one seeded scenario executed on BOTH back-ends (epoll, select): 1-8 submitter threads x 1-200 runInLoop submissions with "
           "pauses; loop-thread tasks that submit nested runNext/run/runInLoop tasks to depth 3 and cancel a queued child, a later sibling of the "
